@@ -300,6 +300,8 @@ func checkC04(r *Report) {
 	r.floor("C04.7/NIL-SPAN", "dereferences of span.min/max in package semver", len(okN)+len(badN), 15)
 	// ---- C04.8
 	errNilRule(r, p, "C04.8/ERR-NIL")
+	nCV := constraintImpliesVersionsRule(r, p, "C04.9/CONSTRAINT-IMPLIES-VERSIONS")
+	r.floor("C04.9/CONSTRAINT-IMPLIES-VERSIONS", "stores of a marker comparison's constraint", nCV, 1)
 }
 
 func derefName(in ssa.Instruction) string {
